@@ -223,11 +223,14 @@ class FuncV(AV):
         self.name = name or getattr(node, "name", "<lambda>")
         self.closure = closure
 
+    def _cells(self):
+        return frozenset(self.closure.items()) if isinstance(self.closure, dict) else None
+
     def __eq__(self, o):
-        return isinstance(o, FuncV) and o.node is self.node and o.recv == self.recv
+        return isinstance(o, FuncV) and o.node is self.node and o.recv == self.recv and o._cells() == self._cells()
 
     def _hash(self):
-        return hash(("F", id(self.node), self.recv))
+        return hash(("F", id(self.node), self.recv, self._cells()))
 
     def __repr__(self):
         return f"<func {self.name}>"
@@ -633,10 +636,20 @@ class Interp:
         out = Out()
         for c, v in self.ev(stmt.value, cfg, out):
             cs = [c]
+            slot = None
+            if len(stmt.targets) > 1 and isinstance(v, ListV) and v.kind in ("list", "set"):
+                # `x = self.y = <list>`: the local and the attribute are one object - what is done to it through the local is done to the attribute
+                for tgt in stmt.targets:
+                    if isinstance(tgt, ast.Attribute):
+                        sub = Out()
+                        b = self.ev(tgt.value, c, sub)
+                        if len(b) == 1 and isinstance(b[0][1], (ObjV, ClassV)):
+                            slot = f"{b[0][1].oid if isinstance(b[0][1], ObjV) else b[0][1].name}.{tgt.attr}"
             for tgt in stmt.targets:
                 ncs = []
                 for c1 in cs:
-                    ncs.extend(self.assign(tgt, v, c1, out))
+                    tv = ListV(v.items, v.kind, ("$slot", slot)) if slot is not None and isinstance(tgt, ast.Name) else v
+                    ncs.extend(self.assign(tgt, tv, c1, out))
                 cs = ncs
             out.extend("normal", cs)
         return out
@@ -767,8 +780,15 @@ class Interp:
 
     def s_FunctionDef(self, stmt, cfg):
         out = Out()
-        out.add("normal", cfg.set(stmt.name, FuncV(stmt, closure=True)))
+        out.add("normal", cfg.set(stmt.name, FuncV(stmt, closure=self._capture(stmt, cfg))))
         return out
+
+    def _capture(self, node, cfg):
+        """The enclosing variables a nested function / lambda refers to, as they are where it is defined: they go with it when it escapes
+        (a closure returned by a factory); while the enclosing frame is still running the caller's current values take precedence."""
+        names = {n.id for n in ast.walk(node) if isinstance(n, ast.Name)}
+        cells = {k: v for k, v in cfg.env.items() if k in names and not k.startswith("$")}
+        return cells or True
 
     s_AsyncFunctionDef = s_FunctionDef
 
@@ -1493,7 +1513,7 @@ class Interp:
         return [(c, App("star", (v,))) for c, v in self.ev(node.value, cfg, out)]
 
     def e_Lambda(self, node, cfg, out):
-        return [(cfg, FuncV(node, closure=True, name="<lambda>"))]
+        return [(cfg, FuncV(node, closure=self._capture(node, cfg), name="<lambda>"))]
 
     def e_IfExp(self, node, cfg, out):
         res = []
@@ -1904,6 +1924,8 @@ class Interp:
         if f.recv is not None and pos and not _is_static(fn):
             args = [f.recv] + args
         if f.closure:
+            if isinstance(f.closure, dict):
+                env.update(f.closure)  # what it captured where it was defined
             env.update(cfg.env)  # nested function: sees enclosing locals (read-only approximation)
         ndef = len(params.defaults)
         for i, p in enumerate(pos):
@@ -2166,6 +2188,10 @@ class Interp:
             if isinstance(args[0], Const) and type(args[0].v).__name__ in self.BUILTIN_CLASSES | {"NoneType"}:
                 return [(cfg, ClassV(type(args[0].v).__name__))]
             return [(cfg, App("type", (args[0],)))]
+        if fname == "setattr" and len(args) == 3 and isinstance(args[1], Const) and isinstance(args[1].v, str) and isinstance(args[0], (ObjV, ClassV)):
+            key = f"{args[0].oid if isinstance(args[0], ObjV) else args[0].name}.{args[1].v}"
+            c2 = self.policy.on_store_attr(self, args[0], args[1].v, args[2], cfg, node) if hasattr(self.policy, "on_store_attr") else cfg
+            return [((c2 or cfg).hset(key, args[2]), NONE)]  # setattr(o, "x", v) is o.x = v
         if fname == "getattr" and len(args) >= 2 and isinstance(args[1], Const) and isinstance(args[1].v, str):
             base = args[0]
             if isinstance(base, (ObjV, ClassV)):
@@ -2175,6 +2201,9 @@ class Interp:
                     return [(cfg, FuncV(f, recv=base, name=f"{cls}.{args[1].v}"))]
                 if isinstance(base, ObjV) and f"{base.oid}.{args[1].v}" in cfg.heap:
                     return [(cfg, cfg.heap[f"{base.oid}.{args[1].v}"])]
+                if cls not in self.policy.program.classes if getattr(self.policy, "program", None) is not None else False:
+                    # an object of a class defined outside the package (a logger, a socket): getattr(o, "x") is o.x
+                    return [(cfg, self.getattr(base, args[1].v, cfg, node))]
                 if len(args) == 3:
                     return [(cfg, args[2])]
                 out.add("raise", cfg.set("$exc", ExcV("AttributeError", f"getattr L{node.lineno}")))
@@ -2224,9 +2253,12 @@ class Interp:
             if org is not None and isinstance(newv, ListV) and isinstance(org, tuple):
                 # an element of a heap dictionary held in a local: the dictionary's element changes with it
                 slot, key = org
-                holder = c.heap.get(slot)
-                if isinstance(holder, DictV) and holder.get(key) is not None:
-                    c = c.hset(slot, DictV(holder.set(key, ListV(newv.items, newv.kind)).items))
+                if slot == "$slot":
+                    c = c.hset(key, ListV(newv.items, newv.kind))  # the attribute the local is an alias of
+                else:
+                    holder = c.heap.get(slot)
+                    if isinstance(holder, DictV) and holder.get(key) is not None:
+                        c = c.hset(slot, DictV(holder.set(key, ListV(newv.items, newv.kind)).items))
                 newv = ListV(newv.items, newv.kind, org)
             if recv_name is not None and recv_name in cfg.env:
                 c = c.set(recv_name, newv)
